@@ -17,7 +17,7 @@ Definition ex_params (rt : string) (ch : pk) (m : string) : params :=
 Definition ex_auth (p : params) : op := OpAuthorize (mkAReq 1 p true (PolSuccess "alice" "openid" [])).
 Definition ex_proof : dpop_proof := mkProof true true (JwkPublic 77) 77 (Some 0%Z) true true HtuExact 0.
 Definition ex_cc (b : bind_in) : op :=
-  OpToken GClientCredentials (mkTReq (mkCred 1 true) b "" 0 "" 0 PkEmpty 0 HgOk BaApprove []).
+  OpToken GClientCredentials (mkTReq (mkCred 1 true) b "" 0 "" 0 PkEmpty 0 HgOk BaApprove [] AsNone).
 Definition ex_run (p : profile) (opts : list opt) (ops : list op) : option (list bool) :=
   option_map (fun cfg => map obs_obtains (run_g (mkWorld cfg ex_clients) [] ops)) (build p opts).
 
